@@ -966,7 +966,7 @@ Proof.
   - destruct (nth_error bs j) as [b|] eqn:Ej.
     2:{ apply nth_error_None in Ej. lia. }
     destruct (chain_spec _ _ _ _ _ Hinv0 Hok Ec j b Ej) as (t' & _ & Hi & Hl).
-    unfold level_at. rewrite Ej, <- Hl. apply (TInv_lookup unit _ t' k a); try assumption.
+    unfold level_at. rewrite Ej, <- Hl. apply (TInv_lookup unit (wfold (firstn (Datatypes.S j) bs) (wapply genesis [])) t' k a); try assumption.
 Qed.
 
 (* ---------- the executable comparisons used by [check] decide equality ---------- *)
